@@ -141,7 +141,7 @@ def run(case):
 def gen_case(rng, tier, kind=None, dtype=None):
     dtype = dtype or rng.choice(gen.DT_ALL)
     maxlen = 12 if tier == "quick" else 50
-    v, style = rl.gen_runs(rng, dtype, "small", maxlen)
+    v, style = rl.gen_runs(rng, dtype, "close" if (np.dtype(dtype).kind == "f" and rng.random() < 0.3) else "small", maxlen)
     L = len(v)
     kind = kind or rng.choice(KINDS)
     vals = v.tolist()
@@ -182,6 +182,10 @@ def directed():
               slice(-1, None, -1), slice(3, 3), slice(5, 2), slice(2, 5, -1), slice(None, None, 3), slice(1, None, 7), slice(-3, None, 2), slice(None, None, -7)]:
         for dtype in ["int64", "float32", "bool"]:
             yield mk_case(dtype, v, "slice", s)
+    for vals in ([1.7e9, 1.7e9 + 1, 1.7e9 + 1, 1.7e9 + 2, 1.7e9], [1e-9, 2e-9, 2e-9, 0.0, 1e-9, 3e-9]):
+        for st in (2, -1, -2, 3):
+            yield mk_case("float64", vals, "slice", slice(None, None, st))
+    yield mk_case("float32", [1000.0, 1000.001, 1000.001, 1000.002, 1000.0], "slice", slice(None, None, -1))
     yield mk_case("int64", v, "cmpmask", 0, op="gt")
     yield mk_case("int64", v, "cmpmask", 1, op="ne")
     yield mk_case("int64", v, "cmpmask", 100, op="gt")
